@@ -446,3 +446,307 @@ Proof.
   destruct P as [P1 [P2 [P3 P4]]].
   destruct Hk as [Hk|Hk]; subst kd; eapply plt_entry_common with (k := k) (e1 := e1) (anc1 := anc1); eauto.
 Qed.
+
+(* ================================================================ tail calls *)
+Lemma Inv_tail : forall st s s' b f rest e L',
+  Inv st s -> exc st = false -> frames st = f :: rest -> (forall k, In k (f_pend f) -> k = b) ->
+  rs s' = e :: L' -> proj e = (f_slot f, m s (f_slot f), b) -> e_lj e = false ->
+  map proj L' = map proj (rs s) -> nolj L' ->
+  (forall a, m s' a = auto_restore false (e :: rs s) (upd (m s) (f_slot f) (tramp_of b)) a) ->
+  inexc s' = false -> jbs s' = jbs s -> jpc s' = jpc s ->
+  Inv (bump (mk st (fresh st (f_slot f) (f_ra f) (b :: f_pend f) :: rest) (flight st) false (extra st) (stale st))) s'.
+Proof.
+  intros st s s' b f rest e L' H He HF Hh Hrs Hpe Hlj HL' Hnl Hm Hi Hj1 Hj2.
+  pose proof (i_sorted _ _ H) as Hs. rewrite HF in Hs. destruct Hs as [Hlt Hs].
+  pose proof (i_valid _ _ H) as Hv. rewrite HF in Hv. inversion Hv as [|? ? [Hvra Hvh] Hvr]; subst.
+  pose proof (Inv_rs_plain _ _ H He) as Hplain. rewrite HF in Hplain.
+  pose proof (mem_top_plain _ _ H He) as Hmem. rewrite HF in Hmem.
+  apply proj_eq in Hpe. destruct Hpe as [Pe1 [Pe2 Pe3]].
+  set (sl := f_slot f) in *.
+  assert (Hip : m s sl = match f_pend f with [] => f_ra f | k' :: _ => tramp_of k' end).
+  { simpl in Hmem. destruct (f_pend f); destruct Hmem as [A _]; exact A. }
+  assert (Hmm : m s' sl = tramp_of b /\ mem_rest (m s') rest).
+  { simpl in Hmem. simpl in Hplain. unfold ents_of in Hplain. fold sl in Hplain. destruct (f_pend f) as [|k' p] eqn:Ep.
+    - destruct Hmem as [_ Hmr]. simpl in Hplain.
+      destruct (push_mem rest (rs s) (m s) sl (tramp_of b) e Hplain Hs Hvr Hlt Hmr Pe1) as [M1 M2].
+      split; [rewrite Hm; exact M1|]. eapply mem_rest_ext; [|exact M2]. intros a; symmetry; apply Hm.
+    - destruct Hmem as [_ Hmr]. simpl in Hplain. apply map_proj_cons in Hplain. destruct Hplain as [prev [r0 [Hr0 [Hpp _]]]].
+      apply proj_eq in Hpp. destruct Hpp as [Pp1 _].
+      assert (Hmeq : forall a, m s' a = upd (m s) sl (tramp_of b) a).
+      { intros a. rewrite Hm. rewrite Hr0. unfold auto_restore. rewrite Pe1, Pp1, N.eqb_refl. reflexivity. }
+      split; [rewrite Hmeq; apply upd_same|]. eapply mem_rest_ext; [intros a; symmetry; apply Hmeq|].
+      apply mem_rest_upd_below; assumption. }
+  destruct Hmm as [Hm1 Hm2].
+  constructor; simpl.
+  - split; assumption.
+  - constructor; [|exact Hvr]. split; [exact Hvra|]. exists b. intros k [Hk|Hk]; [auto|]. apply Hh. exact Hk.
+  - eapply ids_ok_gen with (st := st); [exact (i_ids _ _ H)|simpl; lia|reflexivity|].
+    simpl. constructor; [simpl; lia|]. pose proof (proj1 (i_ids _ _ H)) as Hi'. rewrite HF in Hi'. inversion Hi'; subst.
+    eapply Forall_id_weaken; [|eassumption]. lia.
+  - eapply jb_inv_mono with (st := st) (s := s); [exact (i_jb _ _ H)|reflexivity|exact Hj1|exact Hj2|].
+    intros jb saved rsj Ha Hsf. simpl in Hsf. rewrite HF. apply is_suffix_cons.
+    eapply suffix_after_push; [exact (i_ids _ _ H)|exact Ha| |exact Hsf]. reflexivity.
+  - exact Hi.
+  - intros; discriminate.
+  - rewrite Hrs. constructor; assumption.
+  - exists [], (rs s'). split; [reflexivity|]. split; [|split; [intros e0 Hin; contradiction|reflexivity]].
+    rewrite Hrs. simpl. rewrite HL', Hplain. simpl. unfold ents_of at 1. fold sl.
+    unfold proj. rewrite Pe1, Pe2, Pe3, Hip. reflexivity.
+  - split; assumption.
+  - intros _. exact (i_stale0 _ _ H He).
+  - intros; discriminate.
+  - intros; discriminate.
+Qed.
+
+Lemma all_homogeneous_spec : forall b l, all_homogeneous b l = true -> forall k, In k l -> k = b.
+Proof.
+  intros b l H k Hin. unfold all_homogeneous in H. rewrite forallb_forall in H. specialize (H k Hin).
+  apply eqb_prop in H. symmetry. exact H.
+Qed.
+
+Lemma step_TCall : forall st s k f rest fa, Inv st s -> exc st = false -> frames st = f :: rest ->
+  all_homogeneous false (f_pend f) = true ->
+  Inv (bump (mk st (fresh st (f_slot f) (f_ra f) (false :: f_pend f) :: rest) (flight st) false (extra st) (stale st)))
+      (mcount_entry s k (f_slot f) fa).
+Proof.
+  intros st s k f rest fa H He HF Hh.
+  assert (Hi : inexc s = false) by (rewrite (i_excb _ _ H); exact He).
+  unfold mcount_entry. rewrite Hi.
+  eapply Inv_tail with (s := s) (e := new_ent s false k (f_slot f)) (L' := rs s); eauto.
+  - apply all_homogeneous_spec. exact Hh.
+  - exact (i_nolj _ _ H).
+  - intros a. simpl. rewrite Hi. reflexivity.
+Qed.
+
+Lemma step_TPlt : forall st s k f rest, Inv st s -> exc st = false -> frames st = f :: rest ->
+  all_homogeneous true (f_pend f) = true ->
+  Inv (bump (mk st (fresh st (f_slot f) (f_ra f) (true :: f_pend f) :: rest) (flight st) false (extra st) (stale st)))
+      (plthook_entry s KNone k (f_slot f) 0).
+Proof.
+  intros st s k f rest H He HF Hh.
+  assert (Hi : inexc s = false) by (rewrite (i_excb _ _ H); exact He).
+  unfold plthook_entry. simpl. rewrite Hi.
+  eapply Inv_tail with (s := s) (e := new_ent s true k (f_slot f)) (L' := rs s); eauto.
+  - apply all_homogeneous_spec. exact Hh.
+  - exact (i_nolj _ _ H).
+Qed.
+
+(* ================================================================ returns *)
+Lemma fuel_of_ge : forall s, (S (length (rs s)) < fuel_of s)%nat.
+Proof. intros s. unfold fuel_of. lia. Qed.
+
+Lemma step_Ret : forall st s f rest, Inv st s -> frames st = f :: rest ->
+  (exc st = true -> f_pend f = [] /\ 0 < extra st) ->
+  exists s', follow (fuel_of s) s (m s (f_slot f)) 0 = Some (s', f_ra f, N.of_nat (length (f_pend f))) /\
+     Inv (mk st rest (flight st) (exc st) (if flight st then extra st - 1 else 0) (stale st)) s'.
+Proof.
+  intros st s f rest H HF Hexc.
+  pose proof (i_sorted _ _ H) as Hs. rewrite HF in Hs. destruct Hs as [Hlt Hs].
+  pose proof (i_valid _ _ H) as Hv. rewrite HF in Hv. inversion Hv as [|? ? [Hvra Hvh] Hvr]; subst.
+  assert (Hids : ids_ok (mk st rest (flight st) (exc st) (if flight st then extra st - 1 else 0) (stale st))).
+  { eapply ids_ok_gen with (st := st); [exact (i_ids _ _ H)|simpl; lia|reflexivity|].
+    simpl. pose proof (proj1 (i_ids _ _ H)) as Hi. rewrite HF in Hi. inversion Hi; assumption. }
+  assert (Hjbmono : forall s', jbs s' = jbs s -> jpc s' = jpc s ->
+            jb_inv (mk st rest (flight st) (exc st) (if flight st then extra st - 1 else 0) (stale st)) s').
+  { intros s' E1 E2. eapply jb_inv_mono with (st := st) (s := s); [exact (i_jb _ _ H)|reflexivity|exact E1|exact E2|].
+    intros jb saved rsj Ha Hsf. simpl in Hsf. rewrite HF. apply is_suffix_cons. exact Hsf. }
+  destruct (f_pend f) as [|k p] eqn:Ep.
+  - (* not traced: the slot holds the real address *)
+    assert (Hra : m s (f_slot f) = f_ra f) by (eapply unhooked_real; [exact H|rewrite HF; left; reflexivity|exact Ep]).
+    exists s. split.
+    { rewrite Hra. unfold fuel_of. cbn [follow]. rewrite (valid_ra_not_tramp _ Hvra). reflexivity. }
+    destruct (i_shadow _ _ H) as [SS [L [S1 [S2 [S3 S4]]]]].
+    assert (Hsh : shadow (frames st) = shadow rest) by (rewrite HF; simpl; unfold ents_of; rewrite Ep; reflexivity).
+    pose proof (i_mem _ _ H) as Hm.
+    constructor; simpl.
+    + exact Hs.
+    + exact Hvr.
+    + exact Hids.
+    + apply Hjbmono; reflexivity.
+    + exact (i_excb _ _ H).
+    + exact (i_fl _ _ H).
+    + exact (i_nolj _ _ H).
+    + exists SS, L. rewrite <- Hsh. repeat split; auto.
+    + destruct (exc st); rewrite HF in Hm.
+      * inversion Hm; assumption.
+      * simpl in Hm. rewrite Ep in Hm. destruct Hm as [_ Hm]. exact Hm.
+    + exact (i_stale0 _ _ H).
+    + intros He. destruct (Hexc He) as [_ Hpos]. rewrite (i_fl _ _ H He). pose proof (i_stale _ _ H He) as Hst.
+      unfold base in *; simpl. rewrite HF in Hst.
+      replace (N.to_nat (extra st)) with (S (N.to_nat (extra st - 1))) in Hst by lia. exact Hst.
+    + intros He. destruct (Hexc He) as [_ Hpos]. rewrite (i_fl _ _ H He). pose proof (i_extra _ _ H He) as Hex.
+      rewrite HF in Hex. replace (N.to_nat (extra st)) with (S (N.to_nat (extra st - 1))) in Hex by lia.
+      simpl in Hex. inversion Hex; assumption.
+  - (* traced: one exit hook per function sharing the frame *)
+    assert (He : exc st = false). { destruct (exc st) eqn:E; [|reflexivity]. destruct (Hexc eq_refl) as [X _]. discriminate. }
+    pose proof (Inv_rs_plain _ _ H He) as Hplain. rewrite HF in Hplain. simpl in Hplain. unfold ents_of in Hplain. rewrite Ep in Hplain.
+    apply map_eq_app in Hplain. destruct Hplain as [Lf [L' [HL [HLf HL']]]].
+    pose proof (mem_top_plain _ _ H He) as Hmem. rewrite HF in Hmem. simpl in Hmem. rewrite Ep in Hmem. destruct Hmem as [Hm1 Hm2].
+    assert (Hi : inexc s = false) by (rewrite (i_excb _ _ H); exact He).
+    destruct (follow_chain (k :: p) (f_slot f) (f_ra f) s Lf L' 0 (fuel_of s)) as [s' [F1 [F2 [F3 [F4 [F5 [F6 F7]]]]]]];
+      [discriminate|exact Hvh|exact Hvra|exact HL|exact HLf|exact (i_nolj _ _ H)|exact Hi| | |].
+    + rewrite HL'. destruct (shadow rest) as [|y ys] eqn:E; [exact I|]. eapply shadow_loc_ne; [exact Hlt|]. rewrite E. left. reflexivity.
+    + pose proof (fuel_of_ge s) as Hf. assert (length (k :: p) <= length (rs s))%nat.
+      { rewrite HL, app_length. rewrite <- (map_length proj Lf), HLf, chain_length. lia. }
+      lia.
+    + exists s'. split; [rewrite Hm1; simpl hd in F1; rewrite F1; reflexivity|].
+      constructor; simpl.
+      * exact Hs.
+      * exact Hvr.
+      * exact Hids.
+      * apply Hjbmono; assumption.
+      * rewrite F5. symmetry. exact He.
+      * exact (i_fl _ _ H).
+      * exact F3.
+      * exists [], (rs s'). split; [reflexivity|]. split; [rewrite F2; exact HL'|]. split; [intros e Hin; contradiction|reflexivity].
+      * rewrite He. rewrite F4, HL'. apply mem_rest_rehook_first; assumption.
+      * exact (i_stale0 _ _ H).
+      * intros He'. rewrite He in He'. discriminate.
+      * intros He'. rewrite He in He'. discriminate.
+Qed.
+
+(* ================================================================ setjmp *)
+Lemma Inv_add_jb : forall st s arg saved rsj ri snap sl pc,
+  Inv st s -> Forall (fun f => f_id f < next_id st) saved ->
+  map proj snap = (sl, rsj, true) :: shadow saved -> valid_ra rsj = true -> lt_all sl saved -> nolj snap -> pc = PRET ->
+  Inv {| frames := frames st; next_id := next_id st; jbt := (arg, (saved, rsj)) :: jbt st;
+         flight := flight st; exc := exc st; extra := extra st; stale := stale st |}
+      {| rs := rs s; ridx := ridx s; inexc := inexc s; m := m s; jbs := (arg, (ri, snap)) :: jbs s;
+         jpc := (arg, pc) :: jpc s; out := out s |}.
+Proof.
+  intros st s arg saved rsj ri snap sl pc H Hid Hsnap Hv Hlt Hnl Hpc. subst pc.
+  constructor; simpl.
+  - exact (i_sorted _ _ H).
+  - exact (i_valid _ _ H).
+  - destruct (i_ids _ _ H) as [I1 I2]. split; [exact I1|]. simpl. intros jb sv r [Hin|Hin]; [inversion Hin; subst; exact Hid|eauto].
+  - intros jb sv r Ha Hsf. simpl in *. destruct (jb =? arg) eqn:E.
+    + inversion Ha; subst sv r. exists ri, snap, sl. repeat split; auto.
+    + apply (i_jb _ _ H); assumption.
+  - exact (i_excb _ _ H).
+  - exact (i_fl _ _ H).
+  - exact (i_nolj _ _ H).
+  - exact (i_shadow _ _ H).
+  - exact (i_mem _ _ H).
+  - exact (i_stale0 _ _ H).
+  - exact (i_stale _ _ H).
+  - exact (i_extra _ _ H).
+Qed.
+
+Lemma step_Setjmp : forall st s k sl r arg, Inv st s -> exc st = false -> flight st = false ->
+  below_top (frames st) sl = true -> valid_ra r = true ->
+  let s1 := plthook_entry (with_m s (upd (m s) sl r)) KSetjmp k sl arg in
+  let st1 := push st sl r [true] in
+  Inv {| frames := frames st1; next_id := next_id st1; jbt := (arg, (frames st, r)) :: jbt st;
+         flight := false; exc := false; extra := 0; stale := [] |}
+      {| rs := rs s1; ridx := ridx s1; inexc := inexc s1; m := m s1; jbs := jbs s1;
+         jpc := (arg, m s1 sl) :: jpc s1; out := out s1 |}.
+Proof.
+  intros st s k sl r arg H He Hfl Hb Hv s1 st1.
+  assert (Hi : inexc s = false) by (rewrite (i_excb _ _ H); exact He).
+  pose proof (below_top_lt_all _ _ (i_sorted _ _ H) Hb) as Hlt.
+  pose proof (plt_pushed s k sl r false (i_nolj _ _ H)) as P. unfold plt_triple in P. simpl in P.
+  destruct P as [P1 [P2 [P3 P4]]].
+  set (e := new_ent (with_m s (upd (m s) sl r)) true k sl) in *.
+  set (m1 := auto_restore false (e :: rs s) (upd (upd (m s) sl r) sl PRET)).
+  (* the state without the jmp_buf bookkeeping *)
+  set (s0 := {| rs := e :: rs s; ridx := ridx s + 1; inexc := false; m := m1; jbs := jbs s; jpc := jpc s; out := out s ++ [] |}).
+  assert (H0 : Inv st1 s0).
+  { unfold st1. eapply plt_entry_common with (k := k) (e1 := e) (anc1 := rs s) (s' := s0); eauto. }
+  assert (Hpc : m1 sl = PRET).
+  { pose proof (Inv_rs_plain _ _ H He) as Hplain.
+    destruct (push_mem (frames st) (rs s) (upd (m s) sl r) sl PRET e Hplain (i_sorted _ _ H) (i_valid _ _ H) Hlt) as [M1 _]; auto.
+    apply mem_top_upd_below; [exact Hlt|]. apply mem_top_plain; assumption. }
+  assert (Hst0 : stale st = []) by exact (i_stale0 _ _ H He).
+  assert (Heq : {| rs := rs s1; ridx := ridx s1; inexc := inexc s1; m := m s1; jbs := jbs s1;
+                   jpc := (arg, m s1 sl) :: jpc s1; out := out s1 |} =
+                {| rs := rs s0; ridx := ridx s0; inexc := inexc s0; m := m s0;
+                   jbs := (arg, (ridx s + 1, e :: rs s)) :: jbs s0; jpc := (arg, m1 sl) :: jpc s0; out := out s0 |}).
+  { unfold s1, plthook_entry, s0. cbn [is_flush rs ridx inexc m jbs jpc out with_m]. rewrite Hi. reflexivity. }
+  assert (Hste : {| frames := frames st1; next_id := next_id st1; jbt := (arg, (frames st, r)) :: jbt st;
+                    flight := false; exc := false; extra := 0; stale := [] |} =
+                 {| frames := frames st1; next_id := next_id st1; jbt := (arg, (frames st, r)) :: jbt st1;
+                    flight := flight st1; exc := exc st1; extra := extra st1; stale := stale st1 |}).
+  { unfold st1, push, bump, mk. cbn [frames next_id jbt flight exc extra stale]. rewrite Hfl, He, Hst0. reflexivity. }
+  rewrite Heq, Hste.
+  apply Inv_add_jb with (sl := sl); auto.
+  - unfold st1, push, bump, mk; cbn [next_id]. eapply Forall_id_weaken; [|exact (proj1 (i_ids _ _ H))]. lia.
+  - simpl. rewrite P1. f_equal. rewrite (Inv_rs_plain _ _ H He). reflexivity.
+  - constructor; [reflexivity|exact (i_nolj _ _ H)].
+Qed.
+
+(* ================================================================ longjmp *)
+Lemma sorted_app_r : forall a b, sorted (a ++ b) -> sorted b.
+Proof. induction a as [|x a IH]; intros b H; [exact H|]. simpl in H. destruct H as [_ H]. auto. Qed.
+
+Lemma step_Longjmp : forall st s k sl r arg saved rsj, Inv st s -> exc st = false ->
+  below_top (frames st) sl = true -> valid_ra r = true ->
+  assoc arg (jbt st) = Some (saved, rsj) -> is_suffix saved (frames st) = true ->
+  let s1 := plthook_entry (with_m s (upd (m s) sl r)) KLongjmp k sl arg in
+  exists s2, assoc arg (jpc s1) = Some PRET /\ follow (fuel_of s1) s1 PRET 0 = Some (s2, rsj, 1) /\
+     Inv (mk st saved false false 0 []) s2.
+Proof.
+  intros st s k sl r arg saved rsj H He Hb Hv Ha Hsuf s1.
+  assert (Hi : inexc s = false) by (rewrite (i_excb _ _ H); exact He).
+  pose proof (below_top_lt_all _ _ (i_sorted _ _ H) Hb) as Hlt.
+  destruct (i_jb _ _ H arg saved rsj Ha Hsuf) as [ri [snap [sl0 [J1 [J2 [J3 [J4 [J5 J6]]]]]]]].
+  pose proof (plt_pushed s k sl r true (i_nolj _ _ H)) as P. unfold plt_triple in P.
+  set (e := new_ent (with_m s (upd (m s) sl r)) true k sl) in *.
+  set (m1 := auto_restore false (e :: rs s) (upd (upd (m s) sl r) sl PRET)).
+  destruct (rtd e (rs (with_m s (upd (m s) sl r)))) as [[e1 anc1] recs] eqn:Ertd. simpl in P.
+  destruct P as [P1 [P2 [P3 P4]]].
+  assert (Hs1 : s1 = {| rs := set_end (set_lj e1 true) arg :: anc1; ridx := ridx s + 1; inexc := false; m := m1;
+                        jbs := jbs s; jpc := jpc s; out := out s ++ recs |}).
+  { unfold s1, plthook_entry. cbn [is_flush rs ridx inexc m jbs jpc out with_m]. fold e. rewrite Hi.
+    change (rs (with_m s (upd (m s) sl r))) with (rs s) in Ertd. rewrite Ertd. reflexivity. }
+  (* the memory after the entry hook: every live slot is "hooked or real" *)
+  assert (Hm1 : mem_rest m1 (frames st)).
+  { pose proof (Inv_rs_plain _ _ H He) as Hplain.
+    destruct (push_mem (frames st) (rs s) (upd (m s) sl r) sl PRET e Hplain (i_sorted _ _ H) (i_valid _ _ H) Hlt) as [_ M2]; auto.
+    apply mem_top_upd_below; [exact Hlt|]. apply mem_top_plain; assumption. }
+  destruct (is_suffix_app _ _ Hsuf) as [pre Hpre].
+  assert (Hsorted : sorted saved) by (eapply sorted_app_r; rewrite <- Hpre; exact (i_sorted _ _ H)).
+  assert (Hvalid : Forall fvalid saved).
+  { pose proof (i_valid _ _ H) as Hv'. rewrite Hpre in Hv'. apply Forall_app in Hv'. exact (proj2 Hv'). }
+  assert (Hm1s : mem_rest m1 saved).
+  { unfold mem_rest in *. rewrite Hpre in Hm1. apply Forall_app in Hm1. exact (proj2 Hm1). }
+  (* the snapshot *)
+  apply map_proj_cons in J3. destruct J3 as [esj [srest [Hsnap [Hpe Hprest]]]]. subst snap.
+  apply proj_eq in Hpe. destruct Hpe as [Q1 [Q2 Q3]].
+  set (srest' := {| rs := map set_written (esj :: srest); ridx := ri; inexc := inexc s1; m := m s1;
+                    jbs := jbs s1; jpc := jpc s1; out := out s1 |}).
+  destruct (exit_common_top true srest' (set_written esj) (map set_written srest)) as [s2 [X1 [X2 [X3 [X4 [X5 [X6 X7]]]]]]];
+    [reflexivity|intros _; exact Q3|].
+  exists s2. split; [rewrite Hs1; simpl; exact J2|]. split.
+  - unfold fuel_of. cbn [follow]. change (is_tramp PRET) with true. change (PRET =? MRET) with false. cbv iota.
+    assert (Hpx : plthook_exit s1 = Some (s2, rsj)).
+    { unfold plthook_exit. rewrite Hs1 at 1. cbn [rs]. cbn [e_lj set_end set_lj]. cbn [e_end set_end].
+      assert (HJ : assoc arg (jbs s1) = Some (ri, esj :: srest)) by (rewrite Hs1; exact J1). rewrite HJ.
+      change (exit_common true srest' = Some (s2, rsj)). rewrite X1. simpl. rewrite Q2. reflexivity. }
+    rewrite Hpx. cbn [follow]. destruct (length (rs s1) + _)%nat; cbn [follow]; rewrite (valid_ra_not_tramp _ J4); reflexivity.
+  - assert (Hm2 : m s2 = match shadow saved with [] => m1 | y :: _ => upd m1 (p_loc y) (tramp_of (p_plt y)) end).
+    { rewrite X4. unfold srest'. cbn [inexc m]. rewrite Hs1. cbn [inexc m].
+      rewrite <- Hprest. destruct srest as [|p ps]; [reflexivity|]. simpl.
+      assert (Hne : e_loc esj =? e_loc p = false).
+      { apply N.eqb_neq. rewrite Q1. assert (Hin : In (proj p) (shadow saved)) by (rewrite <- Hprest; left; reflexivity).
+        pose proof (shadow_loc_gt saved sl0 (proj p) J5 Hin) as Hgt. unfold p_loc, proj in Hgt; simpl in Hgt. lia. }
+      rewrite Hne. reflexivity. }
+    constructor; simpl.
+    + exact Hsorted.
+    + exact Hvalid.
+    + eapply ids_ok_gen with (st := st); [exact (i_ids _ _ H)|simpl; lia|reflexivity|].
+      simpl. pose proof (proj1 (i_ids _ _ H)) as Hid. rewrite Hpre in Hid. apply Forall_app in Hid. exact (proj2 Hid).
+    + eapply jb_inv_mono with (st := st) (s := s); [exact (i_jb _ _ H)|reflexivity| | |].
+      * rewrite X6. unfold srest'. simpl. rewrite Hs1. reflexivity.
+      * rewrite X7. unfold srest'. simpl. rewrite Hs1. reflexivity.
+      * intros jb sv rj Hjb Hsf. simpl in Hsf. eapply is_suffix_trans; eauto.
+    + rewrite X5. unfold srest'. simpl. rewrite Hs1. reflexivity.
+    + intros; discriminate.
+    + apply X3. pose proof (map_set_written_shape srest) as _. unfold nolj in *. inversion J6; subst.
+      clear -H3. induction srest as [|x xs IH]; simpl; constructor; inversion H3; subst; auto.
+    + exists [], (rs s2). split; [reflexivity|]. split; [|split; [intros e0 Hin; contradiction|reflexivity]].
+      rewrite X2, map_proj_set_written. exact Hprest.
+    + rewrite Hm2. apply mem_rest_rehook_first; assumption.
+    + reflexivity.
+    + intros; discriminate.
+    + intros; discriminate.
+Qed.
